@@ -45,7 +45,7 @@ def Tree.ops : Tree → List String
 def isOperand (t : Token) : Bool := t.kind == .number || t.kind == .name
 
 /-- an operator token that the parser turns into a node: kind `op`, not a parenthesis, and
-    present in the priority table (other `op` tokens are skipped by `_build_eval_tree`) -/
+    present in the priority table (other `op` tokens are a syntax error in `_build_eval_tree` (they used to be skipped)) -/
 def isOperator (prio : Prio) (t : Token) : Bool :=
   t.kind == .op && t.text != ")" && t.text != "(" && (prioOf prio t.text).isSome
 
@@ -196,7 +196,8 @@ def stepOf (prio : Prio) (toks : Array Token)
             match rec (index + 1) (depth + 1) "unary" none with
             | .error e => .error e
             | .ok (right, idx) => .ok (.cont (some (.unary tok.text right)) idx))
-      | none => .ok (.cont result index)
+      | none => .error .unknownOp
+  else if tok.kind == .string then .error .unexpectedString
   else if tok.kind == .number || tok.kind == .name then
     match result with
     | some r =>
@@ -357,7 +358,6 @@ theorem stepOf_cont {prio : Prio} {toks : Array Token}
     simp [tokItems, optItems, Tree.items, optOp, *]
   · refine cont_next htok ‹_› (ih _ _ _ _ _ _ (by simp) ‹_›) ?_
     simp [tokItems, optItems, Tree.items, *]
-  · exact cont_here htok (by simp [tokItems, *])
   · exact cont_same (ih _ _ _ _ _ _ (by simp) ‹_›)
   · exact cont_here htok (by simp [tokItems, optItems, Tree.items, *])
   · exact cont_here htok (by simp [tokItems, *])
